@@ -16,6 +16,7 @@ import (
 	"github.com/elastos/Elastos.ELA/dpos/state"
 	"pgregory.net/rapid"
 	"verifharness/lib/vk"
+	"verifharness/node"
 )
 
 func TestMain(m *testing.M) { vk.Main(m, "C12") }
@@ -140,6 +141,20 @@ func (o *oracle) onStep(m *Machine, s *Step) bool {
 			continue
 		}
 		must, may := Excused(m, before, x, s.LIHBefore, s.PowBefore)
+		if len(s.NewlyAccepted) > 1 && !may {
+			// several blocks were accepted by this call: height, mode and irreversible height moved in between
+			lih := s.LIHAfter
+			if s.LIHBefore > lih {
+				lih = s.LIHBefore
+			}
+			for _, from := range []*Blk{before, after} {
+				for _, pow := range []bool{s.PowBefore, s.PowAfter} {
+					if _, my := Excused(m, from, x, lih, pow); my {
+						may = true
+					}
+				}
+			}
+		}
 		if must {
 			vk.Count("heavier-chain-behind-irreversible-height", 1)
 			continue
@@ -280,6 +295,9 @@ func runCase(t *rapid.T, cfg Config, unit string) {
 	cfg.OnStep = o.onStep
 	m := Start(t, cfg)
 	defer m.Close()
+	if cfg.Tweak != nil {
+		m.Extra = map[string]any{"CRCOnlyDPOSHeight": m.N.Params.CRCOnlyDPOSHeight, "RevertToPOWStartHeight": m.N.Params.DPoSConfiguration.RevertToPOWStartHeight}
+	}
 	if cfg.Premine > 0 {
 		m.Premine(t, rapid.IntRange(0, cfg.Premine).Draw(t, "premine"))
 	}
@@ -344,5 +362,23 @@ func TestTreeRetarget(t *testing.T) {
 	mb, md := sizes()
 	rapid.Check(t, func(t *rapid.T) {
 		runCase(t, Config{Invalid: true, Retarget: true, MaxBranch: mb, MaxDepth: md, Premine: 6}, "retarget")
+	})
+}
+
+// TestTreeCompressed: compressed activation heights (CRCOnlyDPOSHeight <
+// RevertToPOWStartHeight both small): the irreversibility rule is live and the
+// node switches between DPOS and POW mode.
+func TestTreeCompressed(t *testing.T) {
+	mb, md := sizes()
+	rapid.Check(t, func(t *rapid.T) {
+		c := uint32(rapid.IntRange(2, 12).Draw(t, "CRCOnlyDPOSHeight"))
+		lo := int(c) + 1
+		if lo < 7 {
+			lo = 7
+		}
+		r := uint32(rapid.IntRange(lo, lo+8).Draw(t, "RevertToPOWStartHeight"))
+		cfg := Config{Invalid: true, Reverts: true, MaxBranch: mb + 2, MaxDepth: md + 2, Premine: int(r) + 8,
+			Tweak: node.Compressed(node.Heights{VoteStart: 2, CRCOnlyDPOS: c, RevertToPOWStart: r})}
+		runCase(t, cfg, "compressed")
 	})
 }
